@@ -562,6 +562,14 @@ class Facts:
                 out.append(f)
         return sorted(out, key=lambda f: f.def_)
 
+    def trait_methods(self, self_ty, trait_sub, method):
+        """functions that are `method` of an impl of a trait (path contains trait_sub) for exactly self_ty"""
+        out = []
+        for f in self.fn_by_def.values():
+            if f.self_ty == self_ty and f.impl_trait and trait_sub in f.impl_trait and f.def_.endswith("::" + method):
+                out.append(f)
+        return sorted(out, key=lambda f: f.def_)
+
     def children(self, fn):
         """closures / coroutines directly nested in fn"""
         return sorted((f for f in self.fn_by_def.values() if f.parent == fn.def_ and f.kind in ("closure", "coroutine")),
